@@ -13,8 +13,8 @@ constexpr custom_term b("b", [](std::string_view){ return 0; });
 struct lim { static const size_t state_count_cap = 3; static const size_t max_sit_count_per_state_cap = 4; };
 using P = decltype(parser(g::S, terms(g::a, g::b), nterms(g::S, g::B), rules(g::S(g::a, g::B), g::B(g::b), g::B(g::B, g::b)), use_lexer<hv::tok_lexer<2>>{}, lim{}));
 static_assert(P::rule_count == 4 && P::situation_size == 3 && P::term_count == 4 && P::symbol_count == 7 && P::situation_address_space_size == 48);
-static void fill(P::grammar_info& gi, P::state_analyzer& sa, P::simple_state_table& st, const uint8_t* ri_ridx, const uint8_t* ri_n, const uint8_t* rs_term, const uint8_t* rs_idx,
-                 const uint8_t* vsize, const uint8_t* bsize, const uint32_t* vdata, const uint32_t* bdata, const uint64_t* bits, uint32_t nstates)
+static __attribute__((noinline)) void fill(P::grammar_info& gi, P::state_analyzer& sa, P::simple_state_table& st, const uint8_t* ri_ridx, const uint8_t* ri_n, const uint8_t* rs_term, const uint8_t* rs_idx,
+                 const uint8_t* vsize, const uint8_t* bsize, const uint32_t* vdata, const uint32_t* bdata, const uint64_t* bits, uint32_t nstates, const uint64_t* kbits = nullptr)
 {
     for (unsigned r = 0; r < 4; ++r) {
         gi.rule_infos[r].l_idx = 0; gi.rule_infos[r].r_idx = ri_ridx[r]; gi.rule_infos[r].r_elements = ri_n[r];
@@ -23,6 +23,7 @@ static void fill(P::grammar_info& gi, P::state_analyzer& sa, P::simple_state_tab
     sa.state_count = (size16_t)nstates;
     for (unsigned s = 0; s < 3; ++s) {
         st[s].data[0] = bits[s];
+        if (kbits) sa.states[s].kernel.data[0] = kbits[s];
         sa.states[s].all_situations_vec.current_size = vsize[s];
         for (unsigned i = 0; i < 4; ++i) sa.states[s].all_situations_vec.the_data[i] = vdata[4 * s + i];
         for (unsigned y = 0; y < 7; ++y) {
@@ -35,18 +36,31 @@ extern "C" __attribute__((noinline)) uint32_t k_add(const uint8_t* ri_ridx, cons
                                                      const uint32_t* vdata, const uint32_t* bdata, const uint64_t* bits, uint32_t st_idx, uint32_t sit, uint32_t to_kernel, uint32_t* out)
 {
     P::grammar_info gi{}; P::simple_state_table st{}; P::lr1_parse_table tb{};
-    P::state_analyzer* sa = new P::state_analyzer(gi, st, tb);
+    P::state_analyzer sao(gi, st, tb); P::state_analyzer* sa = &sao;
     fill(gi, *sa, st, ri_ridx, ri_n, rs_term, rs_idx, vsize, bsize, vdata, bdata, bits, 3);
     bool r = sa->add_situation((size16_t)st_idx, sit, to_kernel != 0);
     out[0] = sa->states[st_idx].all_situations_vec.current_size;
     out[1] = (uint32_t)st[st_idx].test(sit);
     out[2] = (uint32_t)sa->states[st_idx].kernel.test(sit);
-    delete sa;
     return r ? 1u : 0u;
+}
+// one call of transitions() - the step that creates LR states - from an arbitrary analyzer state with NSTATES states already present
+extern "C" __attribute__((noinline)) uint32_t k_trans(const uint8_t* ri_ridx, const uint8_t* ri_n, const uint8_t* rs_term, const uint8_t* rs_idx, const uint8_t* vsize, const uint8_t* bsize,
+                                                       const uint32_t* vdata, const uint32_t* bdata, const uint64_t* bits, const uint64_t* kbits, uint32_t nstates, uint32_t st_idx, uint32_t sym, uint32_t* out)
+{
+    P::grammar_info gi{}; P::simple_state_table st{}; P::lr1_parse_table tb{};
+    P::state_analyzer sao(gi, st, tb); P::state_analyzer* sa = &sao;
+    fill(gi, *sa, st, ri_ridx, ri_n, rs_term, rs_idx, vsize, bsize, vdata, bdata, bits, nstates, kbits);
+    sa->transitions((size16_t)st_idx, (size16_t)sym, sa->states[st_idx].situations_by_symbol[sym]);
+    out[0] = sa->state_count;
+    out[1] = (uint32_t)tb[st_idx][sym].kind;
+    out[2] = tb[st_idx][sym].arg;
+    return 0;
 }
 '''
 
-def kernels(wd):
+MODE2 = 'safety'
+def kernels(wd, nstc=None):
     inv = ['ST < 3', 'SIT < 48', 'TOK <= 1']
     for r in range(4):
         inv += ['RI_RIDX[%d] < 4' % r, 'RI_N[%d] <= 2' % r]
@@ -74,9 +88,36 @@ static int repinv(void) {   /* representation invariant: a state's item vector l
     CHECK(OUT[0] == VSIZE[ST] + (had ? 0u : 1u), "the item vector grows by exactly the new item");
     CHECK(OUT[0] <= 4, "a state never holds more items than max_sit_count_per_state_cap: exhausted limits must be rejected, not overrun");
   }''',
-        witness='RET == 1 && !exc_pending && VSIZE[ST] == 3', default_unwind=50, bounds={'k_add': 50, 'fill': 30}, fn_bounds={'popcnt48': 49, 'repinv': 8, 'harness': 90},
+        witness='RET == 1 && !exc_pending && VSIZE[ST] == 3', default_unwind=50, bounds={'k_add': 50, 'fill': 90}, fn_bounds={'popcnt48': 49, 'repinv': 8, 'harness': 90},
         mode='safety', meta={'module': 'c12'}, timeout=900, mem_gb=12)
-    return [k]
+    inv2 = [x for x in inv if not x.startswith(('ST <', 'SIT <', 'TOK <'))] + ['NST >= 1', 'NST <= 3', 'ST < NST', 'SYM < 7']
+    if nstc: inv2.append('NST == %d' % nstc)   # quick tier: the number of existing states is concrete (constant-propagated), the boundary case state_count == cap
+    ref2 = ref + '''static int repinv2(void) {  /* item numbers inside the item address space; states not yet created are empty */
+  for (int i = 0; i < 84; i++) if (BDATA[i] >= 48) return 0;
+  for (int s = 0; s < 3; s++) {
+    if ((KBITS[s] & ~BITS[s]) != 0) return 0;
+    if (s >= (int)NST && (BITS[s] != 0 || VSIZE[s] != 0)) return 0;
+  }
+  return repinv();
+}
+'''
+    k2 = kernel.Kernel(wd, 'transitions' + ('_n%d' % nstc if nstc else ''), CPP,
+        protos=[('uint32_t', 'k_trans', ['const uint8_t*'] * 6 + ['const uint32_t*', 'const uint32_t*', 'const uint64_t*', 'const uint64_t*', 'uint32_t', 'uint32_t', 'uint32_t', 'uint32_t*'])],
+        inputs=[('RI_RIDX', 'uint8_t', 4), ('RI_N', 'uint8_t', 4), ('RS_TERM', 'uint8_t', 8), ('RS_IDX', 'uint8_t', 8), ('VSIZE', 'uint8_t', 3), ('BSIZE', 'uint8_t', 21),
+                ('VDATA', 'uint32_t', 12), ('BDATA', 'uint32_t', 84), ('BITS', 'uint64_t', 3), ('KBITS', 'uint64_t', 3), ('NST', 'uint32_t', 1), ('ST', 'uint32_t', 1), ('SYM', 'uint32_t', 1)],
+        outputs=[('RET', 'uint32_t', 1), ('OUT', 'uint32_t', 3)],
+        assume=' && '.join(inv2) + ' && repinv2()', ref_c=ref2,
+        call_c=('  NST = %d;\n' % nstc if nstc else '') + '  RET = K(k_trans)(RI_RIDX, RI_N, RS_TERM, RS_IDX, VSIZE, BSIZE, VDATA, BDATA, BITS, KBITS, NST, ST, SYM, OUT);',
+        oracle_c='''  /* either the documented exception or a step that stays inside the state table: the R4 / bounds assertions of the translated code check every write to
+     states[], simple_states[] and parse_table[]; the explicit obligations restate the cap */
+  if (!exc_pending) {
+    CHECK(OUT[0] <= 3, "the number of LR states never exceeds state_count_cap: an exhausted limit must be rejected, not overrun");
+    CHECK(OUT[0] == NST || OUT[0] == NST + 1, "one transition creates at most one state");
+    if (OUT[1] == 2 || OUT[1] == 3) CHECK(OUT[2] < OUT[0], "a shift entry names an existing state");
+  }''',
+        witness='!exc_pending && OUT[0] == 3' + ('' if nstc else ' && NST == 2'), default_unwind=50, bounds={'k_trans': 9, 'fill': 90, 'transitions': 6, 'add_situation': 6, 'state_analyzer': 50}, fn_bounds={'popcnt48': 49, 'repinv': 8, 'repinv2': 90, 'harness': 90},
+        mode=MODE2, meta={'module': 'c12'}, timeout=1500, mem_gb=16)
+    return [k, k2]
 
 def replay(r, wd):
     for k in kernels(wd):
